@@ -277,6 +277,7 @@ PROPS["C17"] = {
 
 PROPS["C15"] = {
     "manifest": {
+        "also_engines": ["libFuzzer"],
         "level_text": ("Round-trip oracle over (algorithm, entry point, level, buffer): an exhaustive sweep of every length 0..64 (0..300 in "
                        "the thorough tier) x 4 contents x 5 algorithms x {mtbl_compress, mtbl_compress_level at 16 levels from INT_MIN to "
                        "INT_MAX}, then rapidcheck-generated structured buffers (runs, repeats, random islands) up to 4 MiB; an abort of "
@@ -295,8 +296,14 @@ PROPS["C15"] = {
                     "len_ge1MiB", "len_gt16MiB", "compress_level", "level_out_of_range", "known_name", "unknown_name"],
     "assumptions": ["system zlib/snappy/lz4/zstd are correct"],
     "tiers": {
-        "quick": [{"mode": "small", "kv": {"maxlen": 64}}, {"mode": "big", "workers": 5, "kv": {"sizes": 1}}, {"mode": "rc", "cases": 1200, "max_size": 100}],
-        "thorough": [{"mode": "small", "kv": {"maxlen": 300}}, {"mode": "big", "workers": 5, "kv": {"sizes": 2}}, {"mode": "rc", "cases": 6000, "max_size": 100}],
+        "quick": [{"mode": "small", "kv": {"maxlen": 64}}, {"mode": "big", "workers": 5, "kv": {"sizes": 1}}, {"mode": "rc", "cases": 1200, "max_size": 100},
+                  {"mode": "fuzz", "target": "fuzz/fuzz_compress.cpp", "seeds": "bytes", "runs": 40000, "max_len": 8192, "workers": 8,
+                   "note": "libFuzzer: bytes -> (algorithm, entry point, level, buffer), round-trip oracle inside the target"}],
+        "thorough": [{"mode": "small", "kv": {"maxlen": 300}}, {"mode": "big", "workers": 5, "kv": {"sizes": 2}}, {"mode": "rc", "cases": 6000, "max_size": 100},
+                     {"mode": "fuzz", "target": "fuzz/fuzz_compress.cpp", "seeds": "bytes", "runs": 1000000, "max_len": 65536, "workers": 12,
+                      "note": "libFuzzer, seeded corpus"},
+                     {"mode": "fuzz", "target": "fuzz/fuzz_compress.cpp", "runs": 1000000, "max_len": 65536, "workers": 4, "value_profile": 1,
+                      "note": "libFuzzer, empty corpus, value profile"}],
     },
 }
 
@@ -325,6 +332,7 @@ PROPS["C06"] = {
 
 PROPS["C19"] = {
     "manifest": {
+        "also_engines": ["libFuzzer"],
         "level_text": ("reader.c is compiled with mmap/munmap renamed so that the file 'mapping' is an exact-size ASan heap block: any access "
                        "one byte outside the file is a sanitizer report (a real mapping hides over-reads up to the page end). Enumerator: "
                        "for 12 base files (writer- and independent-encoder-made, v1 and v2, with/without foreign prefix, empty table, "
@@ -412,6 +420,7 @@ PROPS["C12"] = {
 
 PROPS["C11"] = {
     "manifest": {
+        "also_engines": ["libFuzzer"],
         "level_text": ("Files are built by an independent encoder from generated logical content AND generated encoding choices (format v1 or "
                        "v2; block partition from single-entry blocks to one big block; restart points at every entry / only the first / "
                        "every k / irregular; sharing maximal, none or any amount <= LCP; index separators at the last key, beyond it, "
@@ -431,8 +440,14 @@ PROPS["C11"] = {
                     "separator_not_last_key", "single_entry_block", "foreign_prefix", "sample_v1", "stored_block_ge64KiB"],
     "assumptions": TABLE_ASSUME,
     "tiers": {
-        "quick": [{"mode": "samples", "workers": 1}, {"mode": "rc", "cases": 200, "max_size": 100}],
+        "quick": [{"mode": "samples", "workers": 1}, {"mode": "rc", "cases": 200, "max_size": 100},
+                  {"mode": "fuzz", "target": "fuzz/fuzz_encoding.cpp", "seeds": "bytes", "runs": 4000, "max_len": 600, "workers": 8,
+                   "note": "libFuzzer: the input bytes are the encoding choices of the independent encoder"}],
         "thorough": [{"mode": "samples", "workers": 1}, {"mode": "rc", "cases": 6000, "max_size": 100},
+                     {"mode": "fuzz", "target": "fuzz/fuzz_encoding.cpp", "seeds": "bytes", "runs": 400000, "max_len": 2048, "workers": 12,
+                      "note": "libFuzzer, seeded corpus"},
+                     {"mode": "fuzz", "target": "fuzz/fuzz_encoding.cpp", "runs": 400000, "max_len": 2048, "workers": 4, "value_profile": 1,
+                      "note": "libFuzzer, empty corpus, value profile"},
                      {"mode": "big4g", "workers": 1, "kv": {"shapes": 1},
                       "note": "block_builder -> block_init/block_iter round trip of a block above 4 GiB (64-bit restart array), shape drawn from the seed"}],
     },
@@ -493,6 +508,7 @@ PROPS["C07"] = {
 
 PROPS["C13"] = {
     "manifest": {
+        "also_engines": ["vsched"],
         "level_text": ("The harness owns the schedule: mtbl/threadpool.c is compiled with its eleven pthread calls routed to a deterministic "
                        "scheduler (harness/vsched.h) in which every thread is a real pthread parked on a semaphore and exactly one runs; at "
                        "every synchronisation call the choice source decides who runs next and which waiter a signal wakes; spurious "
